@@ -125,7 +125,10 @@ Definition generic_spec_ops : list (string * handler) :=
     ("s.kmers_of_rc"%string, fun a => match a with [VN k; VL l] => match vlistN l with
         | Some d => Some (VL (map ofNs (kmers (N.to_nat k) (rc d)))) | None => None end | _ => None end);
     ("s.kmers"%string, fun a => match a with [VN k; VL l] => match vlistN l with
-        | Some d => Some (VL (map ofNs (kmers (N.to_nat k) d))) | None => None end | _ => None end)
+        | Some d => Some (VL (map ofNs (kmers (N.to_nat k) d))) | None => None end | _ => None end);
+    (* the harness emits this case (with result `!`) when the implementation panics on an in-range generated
+       input outside a guarded call; every property's theorems state `Some _` (no panic) for in-range inputs *)
+    ("s.no_panic"%string, fun a => match a with [VN _; VN _; VN _] => Some (VN 1) | _ => None end)
   ].
 
 Definition prefix2 (op : string) : string := substring 0 2 op.
